@@ -287,8 +287,7 @@ def ref_encode(layers):
         if k == "rip":
             out = struct.pack("!BBH", L["command"], L["version"], 0)
             for e in L["entries"]:
-                if not 0 <= e["metric"] < 0x80000000: return None          # D50
-                out += struct.pack("!HHIIII", e["af"], e["tag"], e["ip"], e["mask"], e["nh"], e["metric"])
+                out += struct.pack("!HHIIII", e["af"], e["tag"], e["ip"], e["mask"], e["nh"], e["metric"])          # RFC 2453: unsigned
             return out
         if k == "igmp":
             if L["vt"] == 0x22: return None
@@ -356,7 +355,7 @@ class C14(Check):
     anchors = []
     coverage_cases = 2500
     trusted_base = ["models Model/Checksum.lean, Model/PacketLayout.lean, Model/PacketHdr.lean (10 classes), Model/PacketExt.lean (llc, mpls, lldp, eapol, eap, ipv6, icmpv6 + echo + the four NDP messages with their options + packet-too-big / time-exceeded / unreachable, gre, vxlan, igmp, rip, dhcp with its option TLVs) hand-written from pox/lib/packet; tied by this correspondence run",
-                    "harness/c14.py detect_variant: whether the tree has the proposed repairs D50 (RIP metric struct 'I') / D49 (EAP request/response keep their body) is found by probing the classes (one RIP entry, one EAP request; the source shapes are a recorded cross-check only); the driver evaluates the model at that variant (XCfg) and the correspondence validates the choice",
+                    "harness/c14.py detect_variant: whether the tree has the repairs D50 (RIP metric struct 'I') / D49 (EAP request/response keep their body) is found by probing the classes (one RIP entry, one EAP request; the source shapes are a recorded cross-check only); the driver evaluates the model at that variant (XCfg) and the correspondence validates the choice",
                     "the driver answers every stack from the extended model and, for stacks of the ten original classes, refuses to answer unless the original model (the one the chain theorem is about) gives the identical result",
                     "RFC 1071 transcription `Pox.Checksum.rfc1071` (Lean) and `rfc1071` (harness/c14.py), cross-checked against each other on every cksum case",
                     "the harness's own wire-format walker (wire_check) for the positions of length/checksum fields and its reference encoder (ref_encode: Ethernet, 802.1Q, ARP, IPv4, IPv6, UDP, TCP+options, ICMP, ICMPv6+NDP, MPLS, VXLAN, RIP, IGMPv1/2, DHCP), both written from the RFCs, agreeing with model and code on every run"]
@@ -395,7 +394,7 @@ class C14(Check):
         # name-based anchors: resolved by common.AnchorCoverage with ast on every run (robust to line shifts)
         self.anchors = [("pox/lib/packet/%s.py" % mod, f) for mod, funcs in self.ANCHOR_FUNCS.items() for f in funcs]
 
-    # Which of the proposed repairs that change *modelled* behaviour the tree under test has (fixes/C14_D50_rip_metric_unsigned.diff,
+    # Which of the repairs that change *modelled* behaviour the tree under test has (fixes/C14_D50_rip_metric_unsigned.diff,
     # fixes/C14_D49_eap_keep_type_data.diff) is found by PROBING the classes (HARDENING 8): what they do with one RIP entry whose metric
     # has the top bit set and with one EAP request.  The driver evaluates the model at that variant (Model/PacketExt.lean XCfg) and the
     # correspondence run validates the choice.  The statement shapes in the source are read as a cross-check only: a disagreement or an
@@ -1553,7 +1552,11 @@ class C14(Check):
             if k == "tcp": L["options"] = []; L["_defopts"] = True; L["seq"] = self.val(rng, 32)
             elif k == "ipv4": L["raw_options"] = ""; L["hl"] = 5; L["id"] = self.val(rng, 16)
             elif k == "lldp": L["tlvs"] = [t for t in L["tlvs"] if t["t"] in (0, 1, 2, 3)]
-            elif k == "ipv6": L["ext"] = []; L["flow"] = self.val(rng, 20)
+            elif k == "ipv6":
+                # the twin has no extension headers, so its next-header field names the payload's protocol (what the last extension header
+                # of the first object names): an object that announces an extension header it does not carry is not well-formed
+                if L.get("ext"): L["nh"] = L["ext"][-1]["nh"]
+                L["ext"] = []; L["flow"] = self.val(rng, 20)
             elif k == "dhcp": L["options"] = []; L["xid"] = self.val(rng, 32)
             elif k in ("nd_ns", "nd_na", "nd_rs", "nd_ra"): L["opts"] = []
             elif k == "igmp" and L["vt"] == 0x22: L["groups"] = []
@@ -1965,12 +1968,12 @@ C14.theorems = ["Pox.C14." + t for t in (
     "struct_roundtrip", "ipv4_hdr", "ipv4_roundtrip", "udp_hdr", "udp_roundtrip", "tcp_hdr", "icmp_hdr", "icmp_roundtrip",
     "eth_roundtrip", "vlan_roundtrip", "vlan_cfi_d13_witness", "arp_roundtrip", "echo_roundtrip", "unreach_roundtrip",
     "time_exceeded_roundtrip", "tcp_roundtrip", "roundtrip", "repack_id",
-    # phase 2 (Model/PacketExt.lean)
-    "llc_roundtrip", "mpls_roundtrip", "lldp_roundtrip", "lldp_tlv_length", "eapol_roundtrip", "eap_roundtrip", "ipv6_hdr", "udp6_hdr", "tcp6_hdr",
-    "icmp6_hdr", "icmp6_roundtrip", "echo6_roundtrip", "gre_hdr", "gre_roundtrip", "vxlan_roundtrip", "igmp_v2", "igmp_v3", "rip_roundtrip",
-    "xparse_eth_dispatch", "xparse_ipv4_dispatch", "xparse_udp_dispatch", "lldp_frame_roundtrip",
-    # code variants (proposed repairs D50 / D49)
-    "rip_roundtrip_unsigned", "eap_roundtrip_body", "variant_head",
+    # phase 2 (Model/PacketExt.lean); RIP and EAP are the theorems of the code as committed (repairs D50, D49)
+    "llc_roundtrip", "mpls_roundtrip", "lldp_roundtrip", "lldp_tlv_length", "eapol_roundtrip", "eap_roundtrip_body", "ipv6_hdr", "udp6_hdr", "tcp6_hdr",
+    "icmp6_hdr", "icmp6_roundtrip", "echo6_roundtrip", "gre_hdr", "gre_roundtrip", "vxlan_roundtrip", "igmp_v2", "igmp_v3", "rip_roundtrip_unsigned",
+    "xparse_eth_dispatch", "xparse_ipv4_dispatch", "xparse_udp_dispatch", "lldp_frame_roundtrip", "variant_repo",
+    # reverted tree: regression witnesses (the variant without repairs D50 / D49, XCfg.head)
+    "rip_roundtrip", "eap_roundtrip", "variant_head",
     # phase 4: validity of packed chains with the pseudo header taken from the emitted enclosing header; NDP, ICMPv6 errors, DHCP
     "chain_valid", "xpack_ipv6_udp_valid", "xpack_ipv6_tcp_valid", "xpack_ipv6_icmp6_valid", "vxlan_arp_frame",
     "icmp6_dispatch", "nd_option_length", "nd_options_roundtrip", "ndp_roundtrip", "icmp6_errors_roundtrip",
@@ -1980,9 +1983,9 @@ C14.level_text = (
     "Per class, hdr/parse round trip (and hdr of the parsed object = the same bytes) + every length field + every Internet checksum = RFC 1071 (and verifies at a receiver): "
     "Ethernet, 802.1Q, ARP, IPv4 (+options), UDP and TCP (+option lists) over IPv4 and over IPv6 pseudo headers, ICMP (echo/unreachable/time-exceeded/other), "
     "LLC (1/2 control octets, SNAP), MPLS, LLDP (whole PDU: chassis/port/TTL + description/name/capabilities/management-address/org-specific/unknown TLVs + END, TLV lengths exact), "
-    "EAPOL, EAP success/failure, IPv6 fixed header (payload length), ICMPv6 (every type: checksum verification accepts what hdr emits, dispatch to the message class; echo; "
+    "EAPOL, EAP (all four codes; request/response keep their type data), IPv6 fixed header (payload length), ICMPv6 (every type: checksum verification accepts what hdr emits, dispatch to the message class; echo; "
     "NDP router/neighbor solicitation/advertisement with link-layer-address / prefix-information / MTU / unknown options, option lengths exact; packet-too-big, time-exceeded, unreachable), "
-    "GRE (flags/key/seq/checksum), VXLAN, IGMP v1/v2 messages and v3 reports with group records (checksum verified by parse), RIP (entries, signed metric), "
+    "GRE (flags/key/seq/checksum), VXLAN, IGMP v1/v2 messages and v3 reports with group records (checksum verified by parse), RIP (entries, unsigned 32-bit metric), "
     "DHCP (fixed header, chaddr/sname/file/cookie, option TLVs with PAD/END, RFC 3396 split of values > 255 bytes and their re-assembly). "
     "Whole-chain theorems for the ten original classes (any nesting): parse(pack p) = p with the computed fields filled in, pack(parse(pack p)) = pack p, and chain_valid: in the packed "
     "bytes every IPv4 total length / IHL / header checksum, UDP length, and UDP/TCP/ICMP checksum is right, the UDP/TCP pseudo header being read from the emitted enclosing IPv4 header "
@@ -1991,15 +1994,18 @@ C14.level_text = (
     "round-trip / RFC 1071 / reference-encoding oracle on all 21 modules, on single build->parse runs and on call histories over the same objects (the models are pure functions, so every call "
     "of a history is compared with the model's answer for that call alone).")
 C14.level_note = (
-    "The theorems are about hand-written models (Model/Checksum.lean, PacketLayout.lean, PacketHdr.lean, PacketExt.lean) of the code as committed (repairs D12, D13, D40-D45, D47, D51, D22 are in); "
-    "they are tied to the code only by the differential run. PROVED per class (61 theorems): ethernet, vlan, arp, ipv4, udp, tcp, icmp(+echo, unreach, time_exceeded), llc, mpls, lldp, eapol, "
-    "eap(success/failure), ipv6(fixed header), icmpv6(+echo, NDP messages and options, packet-too-big, time-exceeded, unreachable), gre, vxlan, igmp, rip, dhcp(+options). "
+    "The theorems are about hand-written models (Model/Checksum.lean, PacketLayout.lean, PacketHdr.lean, PacketExt.lean) of the code as committed (repairs D12, D13, D40-D51, D22 are in); "
+    "they are tied to the code only by the differential run. PROVED per class (62 theorems): ethernet, vlan, arp, ipv4, udp, tcp, icmp(+echo, unreach, time_exceeded), llc, mpls, lldp, eapol, "
+    "eap, ipv6(fixed header), icmpv6(+echo, NDP messages and options, packet-too-big, time-exceeded, unreachable), gre, vxlan, igmp, rip, dhcp(+options). RIP and EAP exist in two code variants "
+    "(with / without repairs D50, D49): the harness finds the variant of the tree under test by probing the classes and the model is evaluated at that variant; the headline theorems "
+    "(rip_roundtrip_unsigned, eap_roundtrip_body, variant_repo) are those of /repo as committed, the theorems of the old code (rip_roundtrip, eap_roundtrip, variant_head) are kept as "
+    "regression witnesses for a reverted tree. "
     "The chain-level theorems (roundtrip/repack_id/chain_valid) cover stacks of the ten original classes only; for stacks containing the other classes the hand-over from Ethernet/IPv4/UDP/ICMPv6 "
     "is proved (xparse_*_dispatch, icmp6_dispatch), eth/ipv6/{udp,tcp,icmpv6} validity is proved, and two whole frames are proved (lldp_frame_roundtrip, vxlan_arp_frame); other compositions "
     "are checked by the differential run, not proved. DHCP options are modelled at the byte level (code, value): the typed option classes (DHCPMsgTypeOption, DHCPIPOptionBase, ...) are "
     "compared through their pack() bytes by the differential run only. The DHCP overload option (52) is never honoured by the code (bytes compared with an int) and the model says the same. "
-    "STILL DIFFERENTIAL ONLY (real build->bytes->parse->re-pack + independent recomputation in the harness, no theorem): DNS (open finding D46 leaves only the question-less header), "
-    "IPv6 extension headers (D48), EAP request/response bodies on the committed tree (D49; the repaired variant is proved: eap_roundtrip_body), GRE routing, MPTCP TCP options. "
+    "STILL DIFFERENTIAL ONLY (real build->bytes->parse->re-pack + independent recomputation in the harness, no theorem; the code is repaired, the classes are not modelled): DNS (D46), "
+    "IPv6 extension headers (D48), GRE routing, MPTCP TCP options. "
     "DESIGN §5 announced translator-derived obligations c14_<proto>_layout_partial; there is no translator and no *_partial obligation: every module listed above has a hand-written behaviour "
     "model with full (not layout-only) theorems plus model comparison, and the remainder is differential only as listed. "
     "Trusted: Lean kernel, propext/Classical.choice/Quot.sound, the RFC 1071 transcriptions, the harness's wire walker, little-endian host.")
